@@ -152,18 +152,31 @@ def success_sequences(B, event_fn, cap=4000, drop_errors=True):
             cs = set(c)
             preds = B.preds()
             headers = [v for v in c if any(p not in cs for p in preds.get(v, [])) or v == 0]
-            order = []
-            seen = set()
-            dq = list(sorted(headers)) or [min(c)]
-            while dq:
-                x = dq.pop(0)
-                if x in seen:
+            # ... in reverse post-order, so that a block comes after everything that can run before it in one iteration
+            # (breadth-first order puts the short arm of a branch and what follows the join before the long arm)
+            hs = list(sorted(headers)) or [min(c)]
+            if len(hs) > 1:
+                # a block inside the loop that is also entered from outside (a join shared with the code before the loop) is no loop
+                # entry: the entry is the block every other block of the loop is reached through
+                dom_ = [h for h in hs if all(B.block_dominates(h, v) for v in c)]
+                if dom_:
+                    hs = dom_[:1]
+            post, seen = [], set()
+            for h in hs:
+                if h in seen:
                     continue
-                seen.add(x)
-                order.append(x)
-                for s_ in B.succ(x):
-                    if s_ in cs and s_ not in seen:
-                        dq.append(s_)
+                stack = [(h, iter(sorted(s_ for s_ in B.succ(h) if s_ in cs and s_ not in hs)))]
+                seen.add(h)
+                while stack:
+                    x, it_ = stack[-1]
+                    nxt = next(it_, None)
+                    if nxt is None:
+                        post.append(x)
+                        stack.pop()
+                    elif nxt not in seen:
+                        seen.add(nxt)
+                        stack.append((nxt, iter(sorted(s_ for s_ in B.succ(nxt) if s_ in cs and s_ not in hs))))
+            order = list(reversed(post))
             inner = []
             for v in order:
                 if v in err:
